@@ -979,3 +979,76 @@ m("C10", "refactor-domain-backup", C,
   '''        backup = identifier("previous_domain", id(node))
         return template("SAVED = __i18n_domain", SAVED=backup) + \\''',
   expect="silent")
+
+# ---- C12 -------------------------------------------------------------------
+TP = "template.py"
+m("C12", "retype-baseexception", TP,
+  '''        except RecursionError:
+            raise
+        except Exception:
+            cls, exc, tb = sys.exc_info()''',
+  '''        except RecursionError:
+            raise
+        except BaseException:
+            cls, exc, tb = sys.exc_info()''')
+m("C12", "recursionerror-wrapped", TP,
+  '''        except RecursionError:
+            raise
+        except Exception:''',
+  '''        except Exception:''')
+m("C12", "compiler-slices-raw-body", TP,
+  '''            getattr(program, "source", body),''',
+  '''            body,''')
+m("C12", "tokenref-appended-last", C,
+  "                stmts.insert(0, TokenRef(string.strip()))",
+  "                stmts.append(TokenRef(string.strip()))")
+m("C12", "first-of-adjacent-refs", C,
+  "                nodes = [nodes[-1]]", "                nodes = [nodes[0]]")
+m("C12", "handler-swallows", C,
+  '''            pos="__token"
+        ) + template("raise")''',
+  '''            pos="__token"
+        )''')
+m("C12", "handler-raise-new", C,
+  '''            pos="__token"
+        ) + template("raise")''',
+  '''            pos="__token"
+        ) + template("raise RuntimeError('render failed')")''')
+m("C12", "partial-output-returned", TP,
+  '''            finally:
+                del exc, tb
+
+        return join(stream)''',
+  '''                return join(stream)
+            finally:
+                del exc, tb
+
+        return join(stream)''')
+m("C12", "bases-swapped", "utils.py",
+  "            new = type(cls.__name__, (cls, base), {",
+  "            new = type(cls.__name__, (base, cls), {")
+m("C12", "args-dropped", "utils.py",
+  "        BaseException.__init__(inst, *exc.args)",
+  "        BaseException.__init__(inst, str(exc))")
+m("C12", "macro-call-no-tokenref", C,
+  '''            assignment +
+            [TokenRef(node.expression.value)] +
+            template("__m = __macro.include") +''',
+  '''            assignment +
+            template("__m = __macro.include") +''')
+m("C12", "internal-macro-keeps-token", C,
+  '''        token_reset = template("__token = None")
+        return token_reset + template(''',
+  '''        token_reset = []
+        return token_reset + template(''')
+m("C12", "program-stores-other-text", "program.py",
+  "        self.source = source\n        tokens = tokenizer(source, filename)",
+  "        self.source = source\n        source = source.expandtabs()\n        tokens = tokenizer(source, filename)")
+m("C12", "record-wrong-exception", C,
+  '''            "exc_info()[1]", exc_info=Symbol(sys.exc_info), mode="eval"''',
+  '''            "exc_info()[0]", exc_info=Symbol(sys.exc_info), mode="eval"''')
+m("C12", "refactor-render-locals", TP,
+  '''        stream = self.output_stream_factory()
+        target_language = __kw.get("target_language")''',
+  '''        target_language = __kw.get("target_language")
+        stream = self.output_stream_factory()''', expect="silent")
